@@ -35,6 +35,8 @@ for a, zc in itertools.product(["1", "2", "-1", "1/2"], ["none", "toggle", "bern
     init = "" if zc == "none" else "z = 0\n"
     GEN.append(init + "while true:\n" + pre + "    x = %s*x + y**2%s\n    y = %s*y - y**2%s\nend\n" % (a, zt, a, zt2))
 GEN += [
+    "x = DiscreteUniform(1, 3)\nb = Bernoulli(1/2)\ny = x + b\nwhile true:\n    x, y = x + x*y, x/3 + 2*y/3 + x*y\nend\n",
+    "x = Bernoulli(1/2)\ny = 2*x + 1\nz = 0\nwhile true:\n    z = 1 - z\n    x = 2*x + y**2 + z\n    y = 2*y - y**2 + 2*z\nend\n",
     "z = 0\nw = 1\nwhile true:\n    z = 1 - z\n    x = 2*x + y**2 + z\n    y = 2*y - y**2 + 2*z\n    w = 2*w\n    u = 3*u + v**2 + w\n    v = 3*v - v**2 + w\nend\n",
     "u = 1\nw = 5\nwhile true:\n    x = 2*x + y**2 + w\n    y = 2*y - y**2 + w\n    w = u\n    u = 3\nend\n",
     "while true:\n    x, y = x + x*y, 2*y - x*y\nend\n",
